@@ -68,7 +68,7 @@ func genItem(t *rapid.T) Item {
 		return Item{Src: broken[rapid.IntRange(0, len(broken)-1).Draw(t, "broken")], Ctx: tree.ID{}}
 	default:
 		fns := []string{"concat(a, 'x')", "string-length(../b) > 2", "not(contains(a[k='v']/b, 'z'))", "substring(current()/../c, 1, 3)", "translate(a,'ab','ba')", "round(1.5) + floor(a)",
-			"deref(a)/../b", "deref(../r)/../c[id = ../x]/w", "deref(current()/ref)/../mtu", "concat(deref(a)/../b, deref(b)/../a)", "/if[name = current()/../n]/mtu"}
+			"../b < 5 or ../b = '007'", "a != 3", "7 > ../c or concat(../c, '!') = 'x'", "deref(a)/../b", "deref(../r)/../c[id = ../x]/w", "deref(current()/ref)/../mtu", "concat(deref(a)/../b, deref(b)/../a)", "/if[name = current()/../n]/mtu"}
 		return Item{Src: fns[rapid.IntRange(0, len(fns)-1).Draw(t, "fnexpr")], Ctx: tree.ID{{Name: "l", Keys: map[string]string{"k": "1"}}}}
 	}
 }
@@ -90,6 +90,35 @@ func genCase(t *rapid.T) Case {
 		c.Schedule = append(c.Schedule, ops)
 	}
 	return c
+}
+
+// storedLists holds the leaf-list values of the data trees, by variant and node.
+var storedLists sync.Map
+
+type storedList struct {
+	ds       []xpath.Datum
+	pristine []string
+}
+
+// treeDamage reports a stored leaf-list value that a run has changed.
+func treeDamage() string {
+	msg := ""
+	storedLists.Range(func(k, v any) bool {
+		st := v.(*storedList)
+		for i, d := range st.ds {
+			lit, ok := d.(interface{ Literal(string) string })
+			got := ""
+			if ok {
+				got = lit.Literal("")
+			}
+			if fmt.Sprintf("%T", d) != fmt.Sprintf("%T", xpath.NewLiteralDatum("")) || (ok && got != st.pristine[i]) {
+				msg = fmt.Sprintf("the data tree was written to: value %d of leaf-list %v was %q and is now %T %q", i, k, st.pristine[i], d, got)
+				return false
+			}
+		}
+		return true
+	})
+	return msg
 }
 
 // freshNames numbers the expressions made of names that no earlier compilation of the process has seen.
@@ -122,11 +151,23 @@ func runMachine(m *xpath.Machine, it Item) string {
 		if h%3 != 0 {
 			return xpath.NewLiteralDatum(v), nil
 		}
-		var ds []xpath.Datum
-		for i := 0; i < 2+(h/3+it.Var)%3; i++ {
-			ds = append(ds, xpath.NewLiteralDatum(v+strings.Repeat("+", i*(it.Var+1))))
+		// the tree keeps its values: every request for the node gets the same slice, as a tree that stores its data would
+		// hand it out; a run has no business writing to it
+		key := fmt.Sprintf("%d|%s", it.Var, s)
+		if st, ok := storedLists.Load(key); ok {
+			return xpath.NewDatumSliceDatum(st.(*storedList).ds), nil
 		}
-		return xpath.NewDatumSliceDatum(ds), nil
+		st := &storedList{}
+		for i := 0; i < 2+(h/3+it.Var)%3; i++ {
+			val := v + strings.Repeat("+", i*(it.Var+1))
+			if h%2 == 0 {
+				val = []string{"007", "1.50", "blue", "42", "-0"}[(h/6+i)%5] // numbers not in their canonical form, and a word
+			}
+			st.ds = append(st.ds, xpath.NewLiteralDatum(val))
+			st.pristine = append(st.pristine, val)
+		}
+		act, _ := storedLists.LoadOrStore(key, st)
+		return xpath.NewDatumSliceDatum(act.(*storedList).ds), nil
 	}
 	if it.Var != 0 {
 		// an independent data tree of the same shape: what a node holds and where a leafref points differ
@@ -287,6 +328,9 @@ func checkCase(c Case) fw.Outcome {
 		}
 		close(start)
 		wg.Wait()
+		if msg := treeDamage(); msg != "" {
+			report(msg)
+		}
 		for _, f := range fresh {
 			if w, _ := isolated(f.it); w != f.got {
 				report(fmt.Sprintf("concurrent compile+run of the new expression %q gave %+v, in isolation %+v", f.it.Src, f.got, w))
